@@ -129,6 +129,8 @@ class FA:
 
     def deps(self, expr, at_node=None):
         ids = self.nodes(expr) if at_node is None else [at_node]
+        if not ids:
+            raise AnalysisError("%s: expression `%s` has no (reachable) CFG node" % (self.qual, A.short(expr, 60)))
         out = set()
         for i in ids:
             out |= self.df.deps(expr, i)
